@@ -9,8 +9,6 @@ import subst
 from wire import es
 
 PID = "C03"
-CLAIM = ("built (theorems + check) but not registered yet: the check correctly reports defect F-C03 on the unfixed tree; "
-         "it is registered as soon as the fix: commit is in /repo")
 MANIFEST = dict(
     text="Lean theorems: html_escape(attr=True) as written equals the seven-character map (C03_esc_attr_as_written, table shape by decide "
          "+kernel); what is written between the quotes decodes to the stored value (C03_decode), contains none of \" ' < > CR LF (C03_inert), "
